@@ -11,7 +11,7 @@ Inputs of the model that are *recorded from outside fsic* (never from the code u
   * pandas `get_loc` results for pandas spans (`Store.getLoc`);
   * `difflib.get_close_matches` result for a would-be new attribute name (`alts`).
 """
-import difflib, json, struct, warnings
+import datetime, difflib, json, struct, warnings
 
 import numpy as np
 import pandas as pd
@@ -88,6 +88,27 @@ def dec_operand(j):
     raise ValueError(t)
 
 
+REF_HOW = {
+    'attr': lambda obj, name: getattr(obj, name),          # obj.X
+    'key': lambda obj, name: obj[name],                    # obj['X']
+    'view': lambda obj, name: obj[name][::1],              # a view of the whole array
+    'rev': lambda obj, name: obj[name][::-1],              # a reversed view
+}
+
+
+def live_operand(j, obj, ext):
+    """Operands that are *live objects*: `{'t': 'ref', 'name', 'how'}` = one of the object's own arrays (or a view of
+    it), `{'t': 'ext', 'id', ...nd fields}` = an array owned by the caller, the same object every time the id is used.
+    Returns (python value, value-semantics operand for the model = what the array holds right now)."""
+    if j['t'] == 'ref':
+        py = REF_HOW[j['how']](obj, j['name'])
+    else:
+        if j['id'] not in ext:
+            ext[j['id']] = dec_operand({**j, 't': 'nd'})
+        py = ext[j['id']]
+    return py, enc_operand(np.array(py, copy=True))
+
+
 def model_operand(j):
     return {k: v for k, v in j.items() if k not in ('py', 'range')}
 
@@ -115,6 +136,10 @@ def enc_label(x):
         return ['period', str(x), x.freqstr]
     if isinstance(x, pd.Timestamp):
         return ['ts', x.isoformat()]
+    if isinstance(x, datetime.datetime):
+        return ['datetime', x.isoformat()]
+    if isinstance(x, datetime.date):
+        return ['date', x.isoformat()]
     if isinstance(x, tuple):
         return ['tuple', [enc_label(y) for y in x]]
     return enc_val(x)
@@ -128,6 +153,10 @@ def dec_label(j):
         return pd.Period(j[1], freq=j[2])
     if t == 'ts':
         return pd.Timestamp(j[1])
+    if t == 'datetime':
+        return datetime.datetime.fromisoformat(j[1])
+    if t == 'date':
+        return datetime.date.fromisoformat(j[1])
     if t == 'tuple':
         return tuple(dec_label(y) for y in j[1])
     return dec_val(j)
@@ -417,7 +446,7 @@ def apply_item(obj, item):
     """Run one item on the real object.  Returns (outcome-or-read string, exception or None)."""
     op = item['op']
     name = item.get('name')
-    v = dec_operand(item['v']) if 'v' in item else None
+    v = item['_py'] if '_py' in item else dec_operand(item['v']) if 'v' in item else None
     try:
         with warnings.catch_warnings():
             warnings.simplefilter('ignore')
@@ -479,7 +508,7 @@ def model_item(item, ids, alts=None):
         if k in item:
             out[k] = item[k]
     if 'v' in item:
-        out['v'] = model_operand(item['v'])
+        out['v'] = model_operand(item.get('_mat', item['v']))
     if op in ('setAttr', 'setValues', 'setStrict'):
         out['alts'] = list(alts or [])
     if op in ('setPosSlice',):
@@ -511,9 +540,11 @@ def labels_of_items(items):
                     yield dec_label(it[k])
 
 
-def initial_store(obj, case, extra_size, extra_bytes, ids):
-    """The model's start state = the freshly constructed real object as observed through its public surface."""
-    span = obj.span
+def initial_store(obj, case, extra_size, extra_bytes, ids, ref_span=None):
+    """The model's start state = the freshly constructed real object as observed through its public surface.  The span
+    (its labels, its kind, pandas' answers) is the span the object was GIVEN (`ref_span`: at construction, or the
+    argument of `reindex`), not whatever the object has made of it."""
+    span = obj.span if ref_span is None else ref_span
     kind = span_kind(span)
     span_ids = [ids(x) for x in span]
     get_loc = []
@@ -556,21 +587,31 @@ def run_segments(case, observer=None):
     ids = LabelIds()
     decl = own_names(obj)           # declaration order as the harness has seen it happen
     segments = []
+    ext = {}                        # arrays owned by the caller (shared between operations by id)
+    ref = {'span': obj.span if case['flavour'] in ('linker', 'alinker', 'linker0') else make_span(case['span'])}
 
     def open_segment(first):
-        segments.append({'store': initial_store(obj, case, extra_size, extra_bytes, ids), 'items': [], 'impl': [],
-                         'first': first})
+        segments.append({'store': initial_store(obj, case, extra_size, extra_bytes, ids, ref['span']), 'items': [],
+                         'impl': [], 'first': first})
 
     open_segment(0)
     if observer:
         if hasattr(observer, 'extra_size'):
             observer.extra_size = extra_size      # Σ submodel.size, computed outside the object under test
+        if hasattr(observer, 'ref_span'):
+            observer.ref_span = ref['span']
         observer(obj, None, None, None, None, decl)
     for k, item in enumerate(case['ops']):
         if item['op'] in BOUNDARY:
             with warnings.catch_warnings():
                 warnings.simplefilter('ignore')
-                obj = obj.copy() if item['op'] == 'copy' else obj.reindex(make_span(item['span']))
+                if item['op'] == 'copy':
+                    obj = obj.copy()
+                else:
+                    ref['span'] = make_span(item['span'])
+                    obj = obj.reindex(make_span(item['span']))
+            if observer and hasattr(observer, 'ref_span'):
+                observer.ref_span = ref['span']
             open_segment(k + 1)
             if observer:
                 observer(obj, item, None, 'ok', None, decl)
@@ -579,6 +620,12 @@ def run_segments(case, observer=None):
                 closest('values', decl) if item['op'] == 'setValues' else
                 closest('strict', decl) if item['op'] == 'setStrict' else None)
         before = snapshot(obj) if observer else None
+        if 'v' in item and item['v']['t'] in ('ref', 'ext'):
+            try:
+                py, mat = live_operand(item['v'], obj, ext)
+                item = {**item, '_py': py, '_mat': mat}
+            except Exception:  # noqa: BLE001  (the source variable does not exist: an ordinary scalar instead)
+                item = {**item, '_py': 0.0, '_mat': enc_operand(0.0)}
         out, exc = apply_item(obj, item)
         seg = segments[-1]
         if item['op'] in READS:
